@@ -308,7 +308,7 @@ async def guarded(flavor: str, fn, horizon: float = 1.0e5):
 
 def run_threaded(setup, seed: int = 0, strategy: str = "random", p: float = 0.1, lines: bool = False,
                  depth: int = 2, est_steps: int = 3000, wall_timeout: float = 60.0, p_jump: float = 0.0,
-                 opcodes: bool = False):
+                 opcodes: bool = False, target=None, collect: bool = False):
     """Run callers on real threads under the controlled scheduler.
 
     setup(sched) -> dict name -> zero-arg function (run in its own managed thread); it is called after the
@@ -348,8 +348,13 @@ def run_threaded(setup, seed: int = 0, strategy: str = "random", p: float = 0.1,
             prefixes = (os.path.join(base, "_sync") + os.sep, os.path.join(base, "_synchronization.py"))
             # opcodes=True: inside the pool module a thread can also lose the CPU between any two bytecodes of a line
             op_prefixes = (os.path.join(base, "_sync", "connection_pool.py"),) if opcodes else ()
-            with LineMonitor(s, prefixes, op_prefixes) as lm:
+            lm = LineMonitor(s, prefixes, op_prefixes)
+            lm.target = target
+            lm.collect = {} if collect else None
+            with lm:
                 ok = s.run(wall_timeout)
+            s.line_seen = lm.collect
+            s.target_fired = lm.fired
             s.line_events = lm.lines
             s.op_events = lm.ops
         else:
